@@ -531,6 +531,15 @@ class Evaluator:
                 bound["*"] = tuple(star)
             selfenv = {k: v for k, v in env.items() if k.startswith("self.")}
             return self.call(t, bound, selfenv, depth + 1)
+        if isinstance(fn, ast.Attribute) and fn.attr in ("find", "rfind", "replace", "split", "strip", "rstrip", "lstrip", "lower", "upper",
+                                                         "count", "index", "isnumeric", "isdigit") \
+                and all(isinstance(a, (str, int)) for a in args) and not kws:
+            try:
+                base = self.expr(fn.value, env, f, depth)
+            except AnalysisError:
+                base = None
+            if isinstance(base, str):
+                return getattr(base, fn.attr)(*args)      # builtin string operation on constants
         if isinstance(fn, ast.Attribute) and fn.attr in ("search", "match", "fullmatch") and args and isinstance(args[0], str):
             rx = self.expr(fn.value, env, f, depth)
             if isinstance(rx, tuple) and len(rx) == 2 and rx[0] == "re" and isinstance(rx[1], str):
